@@ -139,18 +139,22 @@ def programs(rng, tier):
     progs = []
     kinds = list(BIND)
     reps = 6 if tier == "quick" else 40
+    flat = [k for k in kinds if not k.startswith("m2")]
     for e in all_depth1():
         for _ in range(reps):
-            a = rng.choice(BIND[rng.choice(kinds)])
-            b = rng.choice(BIND[rng.choice(kinds)])
+            # joining a matrix with a scalar or vector gives a ragged (object) list: not a numeric list
+            ks = flat if "," in e else kinds
+            a = rng.choice(BIND[rng.choice(ks)])
+            b = rng.choice(BIND[rng.choice(ks)])
             progs.append(["a::" + a, "b::" + b, e])
     n = 2500 if tier == "quick" else 45000
     for _ in range(n):
         e = rand_prog(rng, rng.choice([2, 3]))
         if "a" not in e and "b" not in e:
             continue
-        a = rng.choice(BIND[rng.choice(kinds)])
-        b = rng.choice(BIND[rng.choice(kinds)])
+        ks = flat if "," in e else kinds
+        a = rng.choice(BIND[rng.choice(ks)])
+        b = rng.choice(BIND[rng.choice(ks)])
         progs.append(["a::" + a, "b::" + b, e])
     return progs
 
@@ -271,7 +275,9 @@ def check_differential(chk, rng, tier):
             chk.count("distinct_nontrivial")
         va, vb = parse_sx(a[1]), parse_sx(b[1])
         why = compare_vals(va, vb)
-        if why == "shape" and "\\" in prog[2] and isinstance(va, list) and va[0] == "l" and len(va) == 2 and compare_vals(va[1], vb) is None:
+        scan0d = (why == "shape" and "\\" in prog[2] and isinstance(va, list) and va[0] == "l" and len(va) == 2 and compare_vals(va[1], vb) is None) \
+            or (why is not None and re.search(r"[+*|&]\\\(?[+*|&]/", prog[2]) is not None)      # a scan applied directly to a reduction
+        if scan0d:
             chk.count("scan_of_0d_tensor")
             chk.finding("C08-torch-scan-0d", "scan of a 0-d tensor", {"program": prog, "numpy": a, "torch": b})
             continue
